@@ -3,7 +3,7 @@
 # Three workers, each on its own scratch worktree (/tmp/mut, /tmp/mut2, /tmp/mut3).
 cd /verif
 out=${1:-/verif/seeded/MATRIX.txt}
-ls -d seeded/*/ mutants/*/ > /tmp/matrix.list
+if [ -n "${MATRIX_DIRS:-}" ]; then printf "%s\n" $MATRIX_DIRS > /tmp/matrix.list; else ls -d seeded/*/ mutants/*/ > /tmp/matrix.list; fi
 rm -f /tmp/matrix.part.*
 worker() {
   wt=$1; idx=$2
